@@ -6,11 +6,13 @@ identity of its storage tuple; the differences between consecutive snapshots are
 (create / swap / drop), and every write attempt is judged.
 """
 import gc, random, warnings, weakref
+from datetime import date as _D, datetime as _DT
 
 PID = "C15"
 RULE = ("random histories (quick 30 steps, thorough up to 80) of: fresh vectors (lengths 0–3), vectors over shared caller tuples "
         "(Vector(tup) twice, Vector(v._underlying)), copies, slices, arithmetic results, tables built by >> (the double-__init__ "
-        "path), Table([...]), Table({...}), live column views, attribute assignment, writes with and without promotion, dropping "
+        "path), Table([...]), Table({...}), live column views, attribute assignment, writes with and without promotion (every in-place "
+        "promotion route: int->float, int/float->complex, date->datetime; int, float and date vectors and caller tuples), dropping "
         "handles, gc.collect() at random points and bursts of short-lived same-size vectors/tuples to provoke identity reuse. "
         "Every write attempt is judged: refused iff (non-empty and another LIVE object `is`-shares the storage tuple); accepted writes "
         "must leave every other live object's contents unchanged; the Lean registry model, fed with the real storage identities, "
@@ -155,11 +157,12 @@ def choose(rng, w):
     ops = [m for m, k in menu for _ in range(k)]
     op = rng.choice(ops)
     if op == "newvec":
-        return {"op": op, "dst": dst, "n": rng.choice([0, 1, 2, 2, 3]), "base": rng.randrange(5)}
+        return {"op": op, "dst": dst, "n": rng.choice([0, 1, 2, 2, 3]), "base": rng.randrange(5),
+                "kind": rng.choice(["int", "int", "int", "date", "float"])}
     if op == "sharetuple":
-        return {"op": op, "dst": dst, "k": rng.randrange(3)}
+        return {"op": op, "dst": dst, "k": rng.randrange(5)}
     if op == "pool":
-        return {"op": op, "k": rng.randrange(3), "n": rng.choice([0, 1, 2, 3])}
+        return {"op": op, "k": rng.randrange(5), "n": rng.choice([0, 1, 2, 3]), "kind": rng.choice(["int", "int", "date", "float"])}
     if op == "burst":
         return {"op": op, "count": rng.randint(2, 12), "n": rng.choice([1, 2, 2, 3])}
     if op == "slice":
@@ -205,9 +208,21 @@ def do_write_cell(t, st):
     t[0, j] = 7
 
 
+def _mk(kind, i):
+    return _D(2021, 3, 1 + i % 28) if kind == "date" else i + 0.25 if kind == "float" else i
+
+
 def do_write(o, st):
     n = len(o)
     val = 2.5 if st.get("promote") else 7
+    # every in-place promotion route: int -> float, int/float -> complex, date -> datetime
+    k = o.schema().kind if o.schema() is not None else None
+    if k is _D:
+        val = _DT(2022, 5, 6, 7) if st.get("promote") else _D(2022, 5, 6)
+    elif k is float:
+        val = (1 + 2j) if st.get("promote") else 7.5
+    elif k is int and st.get("promote") and st.get("form") == "mask":
+        val = 1 + 2j
     f = st.get("form", "int")
     if n == 0:
         o[0:0] = []
@@ -219,16 +234,22 @@ def do_write(o, st):
         o[[True] + [False] * (n - 1)] = val
 
 
+def _accessors(t, j):
+    from props.histcommon import accessor_names
+    n = len(t.cols())
+    return accessor_names(t, j % n) if n else []
+
+
 def run_step(slots, pool, st):
     import serif
     Vector, Table = serif.Vector, serif.Table
     op = st["op"]
     if op == "newvec":
-        slots[st["dst"]] = Vector([st["base"] + i for i in range(st["n"])])
+        slots[st["dst"]] = Vector([_mk(st.get("kind", "int"), st["base"] + i) for i in range(st["n"])])
     elif op == "sharetuple":
         slots[st["dst"]] = Vector(pool[st["k"]])
     elif op == "pool":
-        pool[st["k"]] = tuple(range(100 + st["k"], 100 + st["k"] + st["n"]))
+        pool[st["k"]] = tuple(_mk(st.get("kind", "int"), i) for i in range(100 + st["k"], 100 + st["k"] + st["n"]))
     elif op == "burst":
         tmp = [Vector([j] * st["n"]) for j in range(st["count"])]
         junk = [tuple([j] * st["n"]) for j in range(st["count"])]
@@ -256,22 +277,20 @@ def run_step(slots, pool, st):
         del cols
     elif op == "setattr":
         t = slots[st["t"]]
-        m = t._build_column_map()
-        acc = [k for k, v in m.items() if v == st["j"] % max(len(t.cols()), 1)]
+        acc = _accessors(t, st["j"])
         if acc:
             setattr(t, acc[0], slots[st["src"]])
-        del t, m
+        del t
     elif op == "share_col":
         # a column assigned from a raw caller tuple, and a second vector over the same tuple: they really share storage
         t = slots[st["t"]]
-        m = t._build_column_map()
-        acc = [k for k, v in m.items() if v == st["j"] % max(len(t.cols()), 1)]
+        acc = _accessors(t, st["j"])
         if acc and len(t) > 0:
             tup = tuple(range(500, 500 + len(t)))
             setattr(t, acc[0], tup)
             slots[st["dst"]] = Vector(tup)
             del tup
-        del t, m
+        del t
     elif op == "drop":
         slots[st["r"]] = None
     elif op == "gc":
@@ -301,7 +320,7 @@ def run_history(spec):
     import serif
     rng = random.Random(spec.get("seed", 0))
     slots = [None] * NS
-    pool = [(101, 102), (201,), ()]
+    pool = [(101, 102), (201,), (), (_D(2020, 1, 1), _D(2020, 1, 2)), (1.5, 2.5)]
 
     def kinds():
         out = []
